@@ -30,6 +30,15 @@ TEXT = {
  "C15": dict(tech="rapid stateful (model-based) testing of the raft log store against a map model, run in an executor child",
    text="Generated sequences of StoreLog/StoreLogs/GetLog/DeleteRange/FirstIndex/LastIndex/Set/Get/SetUint64/GetUint64/reopen with indexes anywhere in uint64 and payloads up to 64 KB are run on the real RocksDB-backed log store (consensus hook) and compared field by field with a map model, again after reopen and a clean process end. Exploration.",
    note="Stable-store values are non-empty and uint64/byte settings use separate keys (as raft does); RocksDB is trusted.", ref="§5 C15"),
+ "C05": dict(tech="rapid stateful sequence-model testing at balloon and RaftNode level (restarts, SIGKILL crash points, forced snapshots) with dense-version oracle",
+   text="Generated histories of single/bulk adds interleaved with restarts, crash points, snapshots (and, in the cluster tier, leadership transfers) are run on the real Balloon / RaftNode; the k-th acknowledged event must carry version k-1, bulks consecutive versions in request order, each snapshot its own event digest, and proofs CurrentVersion = accepted-1. Exploration.",
+   note="Failures that belong to other properties (node death, digests) make a case inconclusive here, not a violation.", ref="§5 C05"),
+ "C07": dict(tech="fault injection: enumeration of every crash point (before/after each store write) of rapid-generated workloads, SIGKILL + restart, prefix/exactly-once oracle vs reference model",
+   text="For each generated workload every apply x {before, after the store write} is crashed by SIGKILL through a wrapper around the real RocksDB store, the node is restarted and must reach exactly acknowledged+in-flight events, continue with reference-equal snapshots and keep every pre-crash snapshot verifiable. Exhaustive over the crash points of each generated workload; workloads are sampled.",
+   note="SIGKILL keeps the page cache (no torn writes); crash inside RocksDB's own write is not placeable; single node.", ref="§5 C07"),
+ "C08": dict(tech="rapid histories x stop points; metamorphic oracle (restarted node == reference model of the uninterrupted run) + process-exit observation in a child",
+   text="Generated workloads are run with clean stop/restart at every / one / some stop points on RocksDB (child processes: Close must return, exit status 0, no abort) and on bplus (re-constructed Balloon); all later snapshots must equal the reference of the uninterrupted sequence and proofs of pre-stop events verify against pre-stop snapshots. Exploration.",
+   note="Debian librocksdb has assertions on: a leaked iterator at close aborts the child, which is how 'releases every storage resource' is observed. Shutdown liveness = 30 s bound.", ref="§5 C08"),
 }
 
 NA = {}
